@@ -25,12 +25,12 @@ Definition handle_setrange (argv : list string) : prog reply :=
   | Some offset =>
       let newStr := arg argv 3 in
       if negb (ex key) then
-        SetValues [(key, VScal (SStr newStr))] (fun ok => if ok then Ret (RInt (slen newStr)) else Ret RErr)
+        SetValues [(key, VScal (adapt_value newStr))] (fun ok => if ok then Ret (RInt (slen newStr)) else Ret RErr)
       else GetValues [key] (fun vals =>
       match as_str (vals key) with
       | None => Ret RErr
       | Some str =>
-          let put (r : string) := SetValues [(key, VScal (SStr r))] (fun ok => if ok then Ret (RInt (slen r)) else Ret RErr) in
+          let put (r : string) := SetValues [(key, VScal (adapt_value r))] (fun ok => if ok then Ret (RInt (slen r)) else Ret RErr) in
           if slen str <=? offset then put (str +:+ newStr)
           else if offset <? 0 then put (newStr +:+ str)
           else put (overwrite str newStr offset)
